@@ -364,8 +364,33 @@ pub fn crafted() -> Vec<Vec<u8>> {
         b"com.example.Foo -> f:\n    void bar(int) -> a\n    void bar(java.lang.String) -> a\n    void bar(int) -> a\n    1:2:void baz():7:8 -> b\n    1:2:void baz():7:8 -> b\n",
         // an original range shorter and longer than the obfuscated one
         b"com.example.Widget -> w:\n    1:10:void render():20:22 -> a\n    1:2:void draw():30:39 -> b\n    0:0:void all():40:45 -> c\n",
+        // numbers at the top of the representable domain (all below 2^32-1): an original line that only fits a wider
+        // integer than the fields it is computed from, and obfuscated ranges up there
+        b"top.Of -> t:\n    1:100:void run():4294967200:4294967290 -> a\n    4294967000:4294967290:void far():10:300 -> b\n    4294967293:4294967294:void edge():4294967293:4294967294 -> c\n    7:9:void one():4294967294 -> d\n",
+        // a bucket (name, arguments) of two real methods differing in return type only, the first declared in another
+        // class, the second not; and the reverse order
+        b"com.example.Host -> h:\n    void com.example.Moved.helper(int) -> b\n    int compute(int) -> b\n    int plain(long) -> c\n    void com.example.Moved.other(long) -> c\n",
     ];
     v.into_iter().map(|x| x.to_vec()).collect()
+}
+
+/// method lines with every one of the four line numbers, in turn, set to a value around the integer widths:
+/// usize::MAX, 2^64 .. 2^64+4, twenty nines, twenty-one digits, 2^32-1, 2^32, leading zeros, a sign
+pub fn number_lines() -> Vec<Vec<u8>> {
+    let vals = ["18446744073709551615", "18446744073709551616", "18446744073709551617", "18446744073709551618", "18446744073709551619",
+                "18446744073709551620", "99999999999999999999", "184467440737095516150", "100000000000000000000", "4294967295", "4294967296",
+                "00000000000000000000007", "000000000018446744073709551616", "+7", "-1", "9223372036854775808"];
+    let mut out = vec![];
+    for v in vals {
+        for pos in 0..4 {
+            let mut n = ["3", "5", "10", "12"];
+            n[pos] = v;
+            out.push(format!("    {}:{}:void m(int):{}:{} -> a\n", n[0], n[1], n[2], n[3]).into_bytes());
+        }
+        out.push(format!("    {v}:{v}:void m() -> a\n").into_bytes());
+        out.push(format!("    1:2:void m():{v} -> a\n").into_bytes());
+    }
+    out
 }
 
 /// targeted queries: for every method line of the file (with the class it stands under), frames at the
@@ -377,34 +402,46 @@ pub fn targeted(src: &[u8], limit: usize) -> Vec<Value> {
 }
 
 fn targeted_unguarded(src: &[u8], limit: usize) -> Vec<Value> {
-    let mut out = vec![];
+    // one GROUP of queries per method line; groups are kept whole when the file has more than `limit` allows, so
+    // that queries which belong together stay adjacent (a parameter lookup and a line lookup of the same method back
+    // to back, in both orders: whatever a handle or a thread remembers from one must not leak into the other)
+    let mut groups: Vec<Vec<Value>> = vec![];
     let mut class = String::new();
     for r in ProguardMapping::new(src).iter().flatten() {
         match r {
             ProguardRecord::Class { obfuscated, .. } => class = obfuscated.to_string(),
             ProguardRecord::Method { obfuscated, arguments, line_mapping, .. } if !class.is_empty() => {
+                let mut out = vec![];
                 let mut lines: Vec<u128> = vec![0];
                 if let Some(lm) = line_mapping {
                     let (a, b) = (lm.startline as u128, lm.endline as u128);
                     lines = vec![a, (a + b) / 2, a + 1, b, a.saturating_sub(1), b + 1];
                     lines.dedup();
                 }
-                for l in lines {
-                    out.push(json!({"t": "frame", "frame": {"class": bytes_json(&class), "method": bytes_json(obfuscated),
-                                    "line": dec_json(l), "file": [bytes_json("SourceFile")], "params": []}}));
+                let by_line = |l: u128| json!({"t": "frame", "frame": {"class": bytes_json(&class), "method": bytes_json(obfuscated),
+                                               "line": dec_json(l), "file": [bytes_json("SourceFile")], "params": []}});
+                let by_params = |p: &str| json!({"t": "frame", "frame": {"class": bytes_json(&class), "method": bytes_json(obfuscated),
+                                                 "line": [0], "file": [], "params": [bytes_json(p)]}});
+                for l in &lines {
+                    out.push(by_line(*l));
                 }
-                out.push(json!({"t": "frame", "frame": {"class": bytes_json(&class), "method": bytes_json(obfuscated),
-                                "line": [0], "file": [], "params": [bytes_json(arguments)]}}));
+                out.push(by_params(arguments));
+                out.push(by_line(lines[0]));
+                out.push(by_params(""));
+                out.push(by_line(lines[0]));
                 out.push(json!({"t": "method", "class": bytes_json(&class), "method": bytes_json(obfuscated)}));
+                groups.push(out);
             }
             _ => {}
         }
     }
-    if out.len() > limit {
-        let step = out.len() as f64 / limit as f64;
-        out = (0..limit).map(|k| out[(k as f64 * step) as usize].clone()).collect();
+    let total: usize = groups.iter().map(|g| g.len()).sum();
+    if total > limit && !groups.is_empty() {
+        let keep = (limit / 10).max(1).min(groups.len());
+        let step = groups.len() as f64 / keep as f64;
+        groups = (0..keep).map(|k| groups[(k as f64 * step) as usize].clone()).collect();
     }
-    out
+    groups.into_iter().flatten().collect()
 }
 
 /// a near miss of a name: neighbour in sort order (one byte changed / appended / removed)
